@@ -31,6 +31,36 @@ pub fn hostile_bytes(rng: &mut Rng, maxlen: usize) -> Vec<u8> {
         .collect()
 }
 
+static LONG: std::sync::atomic::AtomicBool = std::sync::atomic::AtomicBool::new(false);
+
+/// Switch on the size-boundary class: now and then a string, name, stream content or array has a length at a
+/// power-of-two boundary (buffers and block-wise loops in the code under test change behaviour there).
+pub fn set_long(on: bool) {
+    LONG.store(on, std::sync::atomic::Ordering::SeqCst);
+}
+
+fn long_on() -> bool {
+    LONG.load(std::sync::atomic::Ordering::SeqCst)
+}
+
+pub fn boundary_len(rng: &mut Rng, max: usize) -> usize {
+    let xs: Vec<usize> = [63usize, 64, 65, 127, 128, 129, 255, 256, 257, 511, 512, 513, 1023, 1024, 1025, 4095, 4096, 4097, 8191, 8192, 8193, 65535, 65536, 65537]
+        .iter()
+        .copied()
+        .filter(|&n| n <= max)
+        .collect();
+    *rng.pick(&xs)
+}
+
+pub fn long_bytes(rng: &mut Rng, len: usize) -> Vec<u8> {
+    match rng.below(4) {
+        0 => (0..len).map(|i| b"0123456789abcdef"[i % 16]).collect(),
+        1 => (0..len).map(|_| rng.byte()).collect(),
+        2 => (0..len).map(|i| if i % 7 == 3 { *rng.pick(SIGMA) } else { b'x' }).collect(),
+        _ => (0..len).map(|i| (i % 251) as u8).collect(),
+    }
+}
+
 pub fn special_strings(rng: &mut Rng) -> Vec<u8> {
     let xs: &[&[u8]] = &[
         b"endstream", b"endobj", b"\r\nendstream\r\n", b"(()", b"())", b"\\", b"\\)", b"a\rb", b"a\r\nb", b"a\nb",
@@ -87,6 +117,10 @@ pub struct DocGen {
 
 impl DocGen {
     pub fn name(&self, rng: &mut Rng) -> Vec<u8> {
+        if long_on() && rng.chance(1, 60) {
+            let n = boundary_len(rng, 1025);
+            return (0..n).map(|i| if self.hostile_names && i % 5 == 2 { *rng.pick(b"# /()<>[]{}%\x00\r\n\x80\xff") } else { b"nameXYZ"[i % 7] }).collect();
+        }
         if self.hostile_names && rng.chance(1, 2) {
             if rng.chance(1, 6) {
                 special_strings(rng)
@@ -109,7 +143,15 @@ impl DocGen {
     }
 
     pub fn string(&self, rng: &mut Rng) -> Object {
-        let b = if rng.chance(1, 5) { special_strings(rng) } else { hostile_bytes(rng, 12) };
+        let b = if long_on() && rng.chance(1, 25) {
+            let cap = if rng.chance(1, 12) { 65537 } else { 4097 };
+            let n = boundary_len(rng, cap);
+            long_bytes(rng, n)
+        } else if rng.chance(1, 5) {
+            special_strings(rng)
+        } else {
+            hostile_bytes(rng, 12)
+        };
         Object::String(b, if rng.chance(1, 3) { StringFormat::Hexadecimal } else { StringFormat::Literal })
     }
 
@@ -163,6 +205,10 @@ impl DocGen {
         if depth >= self.max_depth || rng.chance(1, 2) {
             return self.scalar(rng);
         }
+        if long_on() && rng.chance(1, 80) {
+            let n = boundary_len(rng, 1025);
+            return Object::Array((0..n).map(|i| if i % 64 == 63 { self.scalar(rng) } else { Object::Integer(i as i64) }).collect());
+        }
         match rng.below(2) {
             0 => Object::Array((0..rng.below(5)).map(|_| self.object(rng, depth + 1)).collect()),
             _ => Object::Dictionary(self.dict(rng, depth)),
@@ -170,7 +216,12 @@ impl DocGen {
     }
 
     pub fn stream(&self, rng: &mut Rng) -> Object {
-        let content = match rng.below(5) {
+        let content = match if long_on() && rng.chance(1, 10) { 9 } else { rng.below(5) } {
+            9 => {
+                let cap = if rng.chance(1, 8) { 65537 } else { 8193 };
+                let n = boundary_len(rng, cap);
+                long_bytes(rng, n)
+            }
             0 => vec![],
             1 => special_strings(rng),
             2 => hostile_bytes(rng, 40),
